@@ -396,6 +396,14 @@ def hostile_streams(rng, tier):
         ("crlf-only", b"\r\n"),
         ("bulk-no-crlf", b"*2\r\n$3\r\nGET\r\n$1\r\nhXY"),
     ]
+    # lengths of every size announced and never honoured (a length the peer writes is not memory the server owes it): as array
+    # length, as bulk length, top-level and as the second element of a command
+    for d in range(3, 20):
+        num = b"1" + b"0" * (d - 1)
+        out.append((f"array-len-1e{d - 1}", b"*" + num + b"\r\n"))
+        if d % 2 or tier != "quick":
+            out.append((f"bulk-len-1e{d - 1}", b"*2\r\n$3\r\nGET\r\n$" + num + b"\r\nab"))
+            out.append((f"nested-array-len-1e{d - 1}", b"*2\r\n$3\r\nGET\r\n*" + num + b"\r\n"))
     n = 20 if tier == "quick" else 300
     for _ in range(n):
         base = req_bytes(("SET", b"m", bytes(rng.getrandbits(8) for _ in range(5)))) + req_bytes(("GET", b"m"))
@@ -606,7 +614,7 @@ def run_c10(rep, tier, seed):
             viol("correspondence" if "panic" not in a else "oracle", "Command::try_from differs from the model on a command frame (a frame that is not a well-formed command must be rejected as a whole)", [l], m_, a)
     rep.cov["traces_validated_against_impl"] = len(hostile)
     rep.cov["rule"] = ("%d misbehaving byte streams (garbage, unknown/lower-case commands, wrong arity, non-UTF-8 keys, non-array / nested frames, truncated frames then close, sign-only numbers, "
-                       "19-20 digit and negative lengths, nesting depth 33 and 200000, valid commands followed by garbage, random mutations of valid requests), each on its own connection, "
+                       "19-20 digit and negative lengths, array / bulk lengths of 10^2..10^18 announced and never honoured, nesting depth 33 and 200000, valid commands followed by garbage, random mutations of valid requests), each on its own connection, "
                        "interleaved with SET/GET/DEL on one persistent well-behaved connection; checked: process and run loop alive, control replies and final store = Lean handler model "
                        "(which applies exactly the well-formed commands before the first error), hostile connection closed; plus connection-level misbehaviour: clients that reset (RST) their connection while queued behind the "
                        "connection limit (with and without a truncated SET sent), served connections reset with replies in flight or in mid-frame, and peers that connect and stay silent, at max_connections 1/2/3/4/8: the server keeps running, the other connections and a new one are answered, nothing is stored; "
@@ -840,6 +848,42 @@ def run_c15(rep, tier, seed):
                                              expected=str(bad[1]), observed=str(bad[2]), model_script=mlines, model_answers=mans))
         if sc == 0:
             rep.sample({"max": mx, "events": [list(e) for e in events][:20], "script": script[:20], "answers": ans[:20]})
+    # transient failures of accept(2) (EMFILE when descriptors run out for a moment, ECONNABORTED when the peer has already
+    # gone): the listener retries with its back-off (up to four failures in a row are within it); none of the attempts may cost
+    # a slot. Injected by the LD_PRELOAD layer; no theorem of the LTS speaks about a failing accept, the expectation is the
+    # property's own (limit holds, no slot leaks).
+    for (mx, k, errno) in ([(2, 3, 24), (4, 4, 103)] if tier == "quick" else [(1, 1, 24), (2, 3, 24), (3, 2, 103), (4, 4, 24), (4, 4, 103), (8, 4, 24)]):
+        script = [f"srv.start max={mx} mfs=1000000", f"io.failaccepts {k} {errno}", "c.open t", f"c.send t {GET_PROBE}", "c.read t 1 5000", "io.failedaccepts", "c.close t", "sleep 150"]
+        exp = {4: "N", 5: str(k)}
+        for i in range(mx):
+            script += [f"c.open s{i}", f"c.send s{i} {GET_PROBE}", f"c.read s{i} 1 5000"]
+            exp[len(script) - 1] = "N"
+        script += ["c.open q", f"c.send q {GET_PROBE}", "c.read q 1 300"]
+        exp[len(script) - 1] = "timeout"
+        script += ["c.close s0", "c.read q 1 5000"]
+        exp[len(script) - 1] = "N"
+        script += ["srv.alive", "srv.stop"]
+        exp[len(script) - 2] = "alive"
+        shutil.rmtree(root, ignore_errors=True)
+        try:
+            ans = run_harness(["net", "--root", root, "--hang-ms", "30000"], script, preload=True, timeout=120)
+        except Died as d:
+            rep.violation("oracle", dict(what=f"max_connections={mx}, {k} accept(2) calls fail with errno {errno}: harness died / hung ({d.why})", script=script, answers=d.answered))
+            continue
+        rep.cov["evaluations"] += len(script)
+        rep.count("accept_failure_scenarios")
+        rep.nontrivial(["c15acc", mx, k, errno])
+        if ans[5] != str(k):
+            rep.violation("correspondence", dict(what=f"the scenario `{k} failing accept(2) calls` did not come about (the recorder saw {ans[5]} failed calls)", script=script, answers=ans, expected=str(k), observed=ans[5]))
+            continue
+        for li in sorted(exp):
+            a = ans[li]
+            ok = a == exp[li] if exp[li] != "timeout" else a == "timeout"
+            if not ok:
+                what = {4: "the client whose accept failed at first is not served after the retries", }.get(li, "after the failed accept(2) calls the server does not serve exactly max_connections clients at a time (a failed attempt cost a slot, or the limit is gone)")
+                rep.violation("oracle", dict(what=f"max_connections={mx}, {k} accept(2) calls fail with errno {errno}: {what}; step `{script[li][:60]}` observed `{a}`", script=script, answers=ans,
+                                             failing_line=li, expected=exp[li], observed=a))
+                break
     shutil.rmtree(root, ignore_errors=True)
     rep.cov["rule"] = ("seeded event scripts at max_connections 1/2/3: connect / probe (GET) / end by clean close, garbage or an unknown command (the client closing afterwards or keeping its socket open), half-sent frame, connection reset (RST, also while still queued behind the limit, with or without a half-sent frame), or handler panic (a store wrapper whose clone() panics once), "
                        "then 3*max connections that all end badly, then max+1 fresh connections; the Lean ConnLimit LTS (executed by the driver) predicts after every event which connections are served; "
